@@ -268,11 +268,16 @@ TEXT = {
           "transitive and arrival-order independent in the accepted plasma range (negative witnesses for zero plasma and "
           "wrap-around), the momentum content is the longest batch-boundary prefix within the limit, and the pooled blocks "
           "form one chain above the confirmed frontier under all operation sequences; tied by regenerated constants and "
-          "differential streams.",
+          "differential streams. The per-account in-memory versioned store of the pool is replayed through the Lean manager "
+          "model (a popped version answers like an unknown one), and real nodes (a producer rolling back and three competing "
+          "branches, followers fed by gossip and sync, readers inside every momentum notification before and after the pool) "
+          "are checked after every operation: pool = ledger frontier extended by the pooled chain, GetPatch answers exactly "
+          "for the pooled chain, every valid delivery is adopted.",
   "design_ref": "§3 C14",
-  "note": "Data-race freedom and reader atomicity are runtime properties (not theorems). The pool state machine is a "
+  "note": "Data-race freedom and reader atomicity are runtime properties (not theorems); readers are interposed at the "
+          "listener boundaries of momentum insert/delete. The pool state machine is a "
           "hand-written model; the two pure decision functions are tied by differential streams.",
-  "technique": "Lean 4 proof (induction/omega) + regenerated constants + differential correspondence",
+  "technique": "Lean 4 proof (induction/omega) + regenerated constants + differential correspondence + node-level monitors",
  },
  "C11": {
   "text": "Kernel-checked theorems over Go-faithful models. Arithmetic (wrapping int64, truncating big.Int.Quo): rounded-down "
